@@ -138,7 +138,7 @@ func (c *Ctx) snapshotStable(st *State, keep func(sc *stableCell) bool) []stable
 				leaves(Idx(a, IntLit(i)), u.Elem())
 			}
 		default:
-			h := c.R.CellHeap(c.R.SortOf(t))
+			h := c.R.CellHeapT(t)
 			out = append(out, stableSnap{h, a, Select(c.getHeap(st, h), a)})
 		}
 	}
